@@ -224,6 +224,18 @@ def check_nav(c, st):
                     nd.normalize()
                     if snap(uu.URL(nd.to_text())) == snap(nd):      # its text still denotes the same reference
                         dest, ref = nd, nd.to_text()
+                elif c.get('ref_prep') in ('navigated', 'from_parts') and dest.scheme and dest.host:
+                    # an absolute destination that is itself the product of navigate() / from_parts() (its components
+                    # were never parsed from one text)
+                    if c['ref_prep'] == 'navigated':
+                        nd = uu.URL(ref).navigate('')
+                    else:
+                        p0 = uu.URL(ref)
+                        nd = uu.URL.from_parts(scheme=p0.scheme, host=p0.host, path_parts=p0.path_parts,
+                                               query_params=p0.query_params.items(multi=True), fragment=p0.fragment,
+                                               port=p0.port, username=p0.username, password=p0.password)
+                    if snap(uu.URL(nd.to_text())) == snap(nd):
+                        dest, ref = nd, nd.to_text()
             eff_refs.append(ref)
             prev_text = cur.to_text()
             prev_rootless = not any(cur.path_parts[:1] == (x,) for x in ('',)) if cur.path_parts else True
@@ -461,7 +473,8 @@ def gen_ref(r, maxseg=8):
         f = 'only'
     ref = path + ('?' + q if q is not None else '') + ('#' + f if f is not None else '')
     if k > 0.93:
-        ref = r.choice(['http://other/x/../y', 'https://Other.Example/a/./b?q=1#z', 'ftp://u@o:21/', 'http://o'])
+        ref = r.choice(['http://other/x/../y', 'https://Other.Example/a/./b?q=1#z', 'ftp://u@o:21/', 'http://o',
+                        'http://other/p/q?k=v&l=w', 'https://o.example/?x=1#f', 'http://u:p@o:8080/a?b=c'])
     return ref
 
 
@@ -479,8 +492,8 @@ def gen(r):
     base = r.choice(BASES)
     nref = 1 if r.random() < 0.75 else r.randint(2, 4)
     c = {'kind': 'nav', 'base': base, 'refs': [gen_ref(r) for _ in range(nref)], 'ref_as_url': r.random() < 0.3}
-    if c['ref_as_url'] and r.random() < 0.5:
-        c['ref_prep'] = 'normalize'
+    if c['ref_as_url'] and r.random() < 0.6:
+        c['ref_prep'] = r.choice(['normalize', 'normalize', 'navigated', 'from_parts'])
     if r.random() < 0.3:
         c['prep'] = r.choice(['normalize', 'navigated'])
     if r.random() < 0.3:
